@@ -43,6 +43,8 @@ type c10Case struct {
 	Batches   []c10Batch `json:"batches"`
 	Mode      string     `json:"mode,omitempty"`
 	TrickleEmpty bool    `json:"trickle_empty,omitempty"`
+	HumGapMs  int        `json:"hum_gap_ms,omitempty"`
+	Skew      bool       `json:"skew,omitempty"`
 }
 
 func genC10() *rapid.Generator[c10Case] {
@@ -73,11 +75,21 @@ func genC10() *rapid.Generator[c10Case] {
 				c.RGRows = pick(t, "rgrows", []int{2, 3, 6})
 			default:
 				c.RGBytes = pick(t, "rgbytes", []int{300, 1000, 4000})
+				// one heavy row next to several light rows of other partitions: the
+				// partition that reaches the byte limit is not the one with most rows
+				c.Parts = pick(t, "rgparts", []int{2, 3, 5})
+				c.Skew = true
 			}
 		default: // trickle: only the time limit can fire, requests keep arriving inside every window
 			c.BufRows, c.BufBytes, c.RGRows, c.RGBytes = far, farB, far, farB
 			c.BufTimeMs = pick(t, "ttime", []int{300, 400})
 			c.TrickleEmpty = chance(t, "allempty", 60)
+			if chance(t, "hum", 40) {
+				// a hum: requests that buffer nothing arrive every 30-80 ms (faster
+				// than any internal polling period) for well over the time limit
+				c.TrickleEmpty = true
+				c.HumGapMs = pick(t, "humgap", []int{30, 50, 80})
+			}
 		}
 		n := rapid.IntRange(1, 7).Draw(t, "nbatches")
 		if mode == "binding" {
@@ -85,6 +97,9 @@ func genC10() *rapid.Generator[c10Case] {
 		}
 		if mode == "trickle" {
 			n = rapid.IntRange(13, 18).Draw(t, "nbatchest")
+			if c.HumGapMs > 0 {
+				n = 1 + (c.BufTimeMs+2200)/c.HumGapMs
+			}
 		}
 		for i := 0; i < n; i++ {
 			b := c10Batch{PauseMs: pick(t, "pause", []int{0, 0, 5, 30, 120})}
@@ -92,6 +107,9 @@ func genC10() *rapid.Generator[c10Case] {
 			pads := []int{0, 0, 40, 200, 900, 3000}
 			if mode == "trickle" {
 				b.PauseMs = c.BufTimeMs * rapid.IntRange(55, 85).Draw(t, "tpause") / 100
+				if c.HumGapMs > 0 {
+					b.PauseMs = c.HumGapMs
+				}
 				if i == 0 {
 					b.PauseMs = 0
 				}
@@ -103,6 +121,10 @@ func genC10() *rapid.Generator[c10Case] {
 			}
 			if mode == "binding" {
 				pads = []int{0, 40, 200, 200, 600}
+			}
+			if c.Skew {
+				k = rapid.IntRange(2, 6).Draw(t, "nrowsskew")
+				pads = []int{0, 0, 0, 600, 900, 40}
 			}
 			for j := 0; j < k; j++ {
 				b.Rows = append(b.Rows, c10Row{Part: unif(t, "part", 5), Pad: pick(t, "pad", pads)})
@@ -381,7 +403,7 @@ func runC10(c c10Case) *Violation {
 }
 
 func TestC10(t *testing.T) {
-	Ev.Rule = "case = limit settings (MaxBufferedRows/Bytes, MaxRowGroupRows/Bytes each either out of reach or small; MaxBufferedTime 1h or 60-400 ms; none/snappy/zstd; 0/2/5 partitions) x 1-7 batches of 1-5 rows (rows of 20 B to 3 KB spread over partitions) with 0-120 ms pauses; generator modes: mixed limits, exactly one binding limit (the others out of reach, 2-10 batches), and a trickle (only MaxBufferedTime 300-400 ms can fire; 13-18 small or empty batches arriving every 0.55-0.85 of the window); done channels are unbuffered with live receivers that stamp the wall-clock time of the answer; responsive in-memory stores; Flush and Stop are not called while obligations are open. A model of the buffer (rows, marshaled bytes without prefixes, per-partition rows/bytes; reset whenever an ack shows a flush happened) says when a limit is certainly reached: every buffered batch must then be answered within 1.5 s; with MaxBufferedTime configured every batch must be answered within MaxBufferedTime + 100 ms tick + 1.5 s of ITS OWN acceptance (measured on the answer's receive time). Timing verdicts need two further reproductions. Non-trivial: a non-time trigger fired on a buffer holding a multi-partition batch, or a time flush covered >=2 batches; distinct by case."
+	Ev.Rule = "case = limit settings (MaxBufferedRows/Bytes, MaxRowGroupRows/Bytes each either out of reach or small; MaxBufferedTime 1h or 60-400 ms; none/snappy/zstd; 0/2/5 partitions) x 1-7 batches of 1-5 rows (rows of 20 B to 3 KB spread over partitions) with 0-120 ms pauses; generator modes: mixed limits, exactly one binding limit (the others out of reach, 2-10 batches), and a trickle (only MaxBufferedTime 300-400 ms can fire; 13-18 small or empty batches arriving every 0.55-0.85 of the window, or a hum of empty requests every 30-80 ms for longer than the limit plus the allowance); done channels are unbuffered with live receivers that stamp the wall-clock time of the answer; responsive in-memory stores; Flush and Stop are not called while obligations are open. A model of the buffer (rows, marshaled bytes without prefixes, per-partition rows/bytes; reset whenever an ack shows a flush happened) says when a limit is certainly reached: every buffered batch must then be answered within 1.5 s; with MaxBufferedTime configured every batch must be answered within MaxBufferedTime + 100 ms tick + 1.5 s of ITS OWN acceptance (measured on the answer's receive time). Timing verdicts need two further reproductions. Non-trivial: a non-time trigger fired on a buffer holding a multi-partition batch, or a time flush covered >=2 batches; distinct by case."
 	Ev.Assumptions = []string{"'immediately' is judged with a 1.5 s allowance", "byte obligations only when the marshaled bytes without length prefixes already reach the limit"}
 	runChecks(t, "limits", 100, 2500, genC10(), runC10)
 }
